@@ -77,13 +77,15 @@ func (o Op) String() string {
 		return fmt.Sprintf("save(%d x %dB bump=%v)", o.N, o.Size, o.Bump)
 	case "overwrite":
 		return fmt.Sprintf("overwrite-last(%dB)", o.Size)
+	case "overwrite2":
+		return fmt.Sprintf("overwrite-from-last-but-one(%dB)", o.Size)
 	}
 	return o.Kind
 }
 
 func Alphabet(full bool) []Op {
 	ops := []Op{{Kind: "save", N: 1, Size: 7}, {Kind: "save", N: 2, Size: 500}, {Kind: "save", N: 1, Size: 513, Bump: true}, {Kind: "save", N: 1, Size: 0},
-		{Kind: "overwrite", Size: 8}, {Kind: "commit"}, {Kind: "snap"}, {Kind: "reopen"}}
+		{Kind: "overwrite", Size: 8}, {Kind: "overwrite2", Size: 7}, {Kind: "commit"}, {Kind: "snap"}, {Kind: "reopen"}}
 	if full {
 		ops = append(ops, Op{Kind: "save", N: 1, Size: 8}, Op{Kind: "sync"}, Op{Kind: "release"}, Op{Kind: "save", N: 3, Size: 200})
 	}
@@ -113,6 +115,7 @@ type run struct {
 	commit        uint64
 	cur           string
 	lastSavedTerm uint64
+	tmpSynced     int
 }
 
 func readDir(dir string) map[string][]byte {
@@ -128,7 +131,15 @@ func readDir(dir string) map[string][]byte {
 }
 
 func (r *run) observe(label string) {
-	o := Obs{Label: label, Files: readDir(r.dir), Synced: map[string]int{}, Durable: r.durable, Issued: len(r.recs)}
+	files := readDir(r.dir)
+	for n := range files {
+		if _, ok := r.synced[n]; !ok && strings.HasSuffix(n, ".wal") && r.tmpSynced > 0 {
+			// a pre-allocated "<n>.tmp" was renamed to this segment: what was synced stays synced
+			r.synced[n] = r.tmpSynced
+			r.tmpSynced = 0
+		}
+	}
+	o := Obs{Label: label, Files: files, Synced: map[string]int{}, Durable: r.durable, Issued: len(r.recs)}
 	for k, v := range r.synced {
 		o.Synced[k] = v
 	}
@@ -168,6 +179,9 @@ func (r *run) hook(f *os.File, dataOnly bool) {
 		}
 	}
 	r.synced[name] = dataEnd(b)
+	if strings.HasSuffix(name, ".tmp") {
+		r.tmpSynced = dataEnd(b)
+	}
 	// everything submitted so far has been flushed and synced (Save encodes all records of
 	// a call before its sync; cut() syncs the old tail first)
 	r.durable = len(r.recs)
@@ -195,6 +209,17 @@ func Execute(dir string, hist []Op, optFsync bool) (obs []Obs, recs []Rec, err e
 		return nil, nil, err
 	}
 	r.w = w
+	closed := false
+	defer func() {
+		// never leave a WAL (and its segment pre-allocation goroutine) behind: the next
+		// history reuses the directory path
+		if !closed && r.w != nil {
+			func() {
+				defer func() { recover() }()
+				r.w.Close()
+			}()
+		}
+	}()
 	// files created inside the .tmp directory were renamed: re-key the synced map
 	r.synced = map[string]int{}
 	for n, b := range readDir(dir) {
@@ -204,7 +229,7 @@ func Execute(dir string, hist []Op, optFsync bool) (obs []Obs, recs []Rec, err e
 	for i, op := range hist {
 		r.cur = fmt.Sprintf("#%d %s", i, op)
 		switch op.Kind {
-		case "save", "overwrite", "commit":
+		case "save", "overwrite", "overwrite2", "commit":
 			var ents []raftpb.Entry
 			st := raftpb.HardState{Term: r.term, Vote: 1, Commit: r.commit}
 			switch op.Kind {
@@ -224,6 +249,15 @@ func Execute(dir string, hist []Op, optFsync bool) (obs []Obs, recs []Rec, err e
 				r.term++
 				st.Term = r.term
 				ents = append(ents, raftpb.Entry{Index: r.last, Term: r.term, Data: payload(op.Size, byte(i*16+9))})
+			case "overwrite2":
+				// a new leader's entry replaces the last two uncommitted entries by one
+				if r.last < 2 || r.last-1 <= r.commit {
+					continue
+				}
+				r.term++
+				st.Term = r.term
+				r.last--
+				ents = append(ents, raftpb.Entry{Index: r.last, Term: r.term, Data: payload(op.Size, byte(i*16+10))})
 			case "commit":
 				if r.commit >= r.last {
 					continue
@@ -274,15 +308,16 @@ func Execute(dir string, hist []Op, optFsync bool) (obs []Obs, recs []Rec, err e
 			if err != nil {
 				return r.obs, r.recs, err
 			}
+			r.w = w
 			if _, _, _, err := w.ReadAll(); err != nil {
 				return r.obs, r.recs, fmt.Errorf("ReadAll after clean close: %v", err)
 			}
-			r.w = w
 		}
 		r.observe(r.cur + "@return")
 	}
 	r.cur = "final-close"
 	r.w.Close()
+	closed = true
 	r.observe("close@return")
 	return r.obs, r.recs, nil
 }
@@ -330,15 +365,23 @@ func Recover(dir string) (f Folded, err error, repaired bool) {
 // continueProbe: open the (already recovered) image for append, save one more entry, close,
 // reopen: the result must be the recovered state plus the new entry.
 func continueProbe(dir string, got Folded) (msg string) {
+	var cur *wal.WAL
 	defer func() {
 		if r := recover(); r != nil {
 			msg = fmt.Sprintf("panic while appending after recovery: %v", r)
+			if cur != nil {
+				func() {
+					defer func() { recover() }()
+					cur.Close()
+				}()
+			}
 		}
 	}()
 	w, err := wal.Open(dir, walpb.Snapshot{}, false)
 	if err != nil {
 		return fmt.Sprintf("open for append after recovery: %v", err)
 	}
+	cur = w
 	if _, _, _, err := w.ReadAll(); err != nil {
 		w.Close()
 		return fmt.Sprintf("ReadAll before append after recovery: %v", err)
@@ -452,7 +495,7 @@ func CheckHistory(col *ev.Collector, scratch string, hist []Op, optFsync bool, f
 			return
 		}
 		st.ReopenOK++
-		if kind != "process-kill" && st.Images%4 == 0 {
+		if kind == "torn-sectors" || (kind != "process-kill" && st.Images%4 == 0) {
 			// the recovered log must accept appends and read back with them (ReadAll has to
 			// zero what follows the last valid record, or later opens hit stale bytes)
 			if msg := continueProbe(img, got); msg != "" {
